@@ -132,7 +132,7 @@ theorem structInitLoop_flat (ctx : ImplContext) (named : Bool) (hint : TypeHint)
   | [], fuel, frags, idx, hf, _ => by
     cases fuel with
     | zero => simp at hf
-    | succ n => simp [flatContainers, structInitLoop, flatLines]
+    | succ n => simp [flatContainers, structInitLoop, flatLines, levelBreak]
   | t :: rest, fuel, frags, idx, hf, hc => by
     cases fuel with
     | zero => simp at hf
@@ -142,7 +142,7 @@ theorem structInitLoop_flat (ctx : ImplContext) (named : Bool) (hint : TypeHint)
       have hchild : t.2.2.attrs.child ctx.ty = none := hc t (List.mem_cons_self)
       simp only [flatContainers, List.map_cons, flatLines]
       unfold structInitLoop
-      simp only [bind, Except.bind, pure, Except.pure, Option.map_none, hchild]
+      simp only [levelBreak, bind, Except.bind, pure, Except.pure, Option.map_none, hchild]
       have ih := structInitLoop_flat ctx named hint rest n
       simp only [flatContainers] at ih
       by_cases hs : fieldSkipped ctx t.2.2 = true
